@@ -248,7 +248,8 @@ def context_init(ck, cc, e, src, fields, rid="C03-O1"):
         ck.ob(rid, "logmessage.h (%s before m_context)" % own, okord, "%s is declared (hence initialised) before m_context" % own if okord else "%s is initialised after m_context uses it" % own, key="LogMessage|order|%s" % own)
 
 
-def handoff(ck, proc):
+def handoff(ck, proc, rid=None):
+    R = (lambda x: rid) if rid else (lambda x: x)   # another property claims the same structure under a rule id of its own
     F = ck.facts
     ck.touch(proc)
     cls = proc.cls
@@ -268,7 +269,7 @@ def handoff(ck, proc):
             en_q = [x for a_ in n.get("args", []) for x in walk(a_) if x.get("k") == "ref" and (x.get("name") or "").endswith(("Qt::QueuedConnection", "Qt::BlockingQueuedConnection"))]
             blocking = any((x.get("name") or "").endswith("BlockingQueuedConnection") for x in en_q)
             if not en_q or blocking:
-                ck.ob("C03-O3", sitestr(proc, n), False, "%s: the hand-off uses %s %s: a log call made on the logger's own thread (a sink reporting a write error) runs the whole pipeline inside the sink "
+                ck.ob(R("C03-O3"), sitestr(proc, n), False, "%s: the hand-off uses %s %s: a log call made on the logger's own thread (a sink reporting a write error) runs the whole pipeline inside the sink "
                       "that is busy, ahead of everything queued, with the hand-off mutex held" % (tag, (n.get("callee") or "").split("<")[0], "with Qt::BlockingQueuedConnection (the logging call waits for the sinks)" if blocking else
                       "without Qt::QueuedConnection (Qt::AutoConnection calls directly when caller and receiver share a thread)"), key="OwnThreadHandler::process|not-queued")
     ck.require(len(post) == 1, "%s::process posts %d events" % (tag, len(post)))
@@ -279,7 +280,7 @@ def handoff(ck, proc):
     # O3
     ran = [n for n in base if g.site_of(n) in live_w]
     other_runs = [n for n in proc.calls() if n.get("virtual") and name_is(n.get("callee"), "QtLogger::Handler::process") and g.site_of(n) in live_w]
-    ck.ob("C03-O3", sitestr(proc), not ran and not other_runs, "%s: with a worker no handler runs in the logging call" % tag if not (ran or other_runs) else
+    ck.ob(R("C03-O3"), sitestr(proc), not ran and not other_runs, "%s: with a worker no handler runs in the logging call" % tag if not (ran or other_runs) else
           "%s: with a worker the logging call still runs %s synchronously (blocks on the sinks, and the message is delivered twice)" % (tag, describe((ran + other_runs)[0])), key="OwnThreadHandler::process|runs-handler-async")
     # "the logging call never blocks on a sink": with a worker the call neither loops nor sleeps / waits — a producer that is made to wait
     # for the backlog to shrink waits for the sinks (and, holding the logger's mutex, makes every other producer wait too)
@@ -287,30 +288,30 @@ def handoff(ck, proc):
     loops_w = [l for l in find_loops(proc) if (g.site_of(l.get("cond")) if isinstance(l.get("cond"), dict) else None) in live_w or any(g.site_of(x) in live_w for x in walk(l.get("body") or {}) if g.site_of(x) is not None)]
     waits_w = [n for n in proc.calls() if (n.get("callee") or "").split("::")[-1] in WAITS and g.site_of(n) in live_w and not is_container_type_name(n)]
     blk = loops_w or waits_w
-    ck.ob("C03-O3", sitestr(proc, (loops_w + waits_w)[0]) if blk else sitestr(proc), not blk, "%s: with a worker the logging call contains no loop and no sleeping or waiting call" % tag if not blk else
+    ck.ob(R("C03-O3"), sitestr(proc, (loops_w + waits_w)[0]) if blk else sitestr(proc), not blk, "%s: with a worker the logging call contains no loop and no sleeping or waiting call" % tag if not blk else
           "%s: with a worker the logging call %s: a producer ahead of the sinks is made to wait for them (back-pressure), which is exactly what asynchronous mode promises not to do" %
           (tag, "loops (%s)" % describe(loops_w[0].get("cond"))[:60] if loops_w else "calls %s" % describe(waits_w[0])[:40]), key="OwnThreadHandler::process|blocks-async")
     okp = g.must_pass({ps}, keep=keep_w) and not g.in_cycle(ps)
-    ck.ob("C03-O3", sitestr(proc, p), okp, "%s: with a worker exactly one event is posted on every path" % tag if okp else "%s: with a worker the post is conditional or repeated" % tag, key="OwnThreadHandler::process|post-conditional")
+    ck.ob(R("C03-O3"), sitestr(proc, p), okp, "%s: with a worker exactly one event is posted on every path" % tag if okp else "%s: with a worker the post is conditional or repeated" % tag, key="OwnThreadHandler::process|post-conditional")
     # O2
     a = p.get("args", [])
     recv = skip_copies(a[0]) if a else None
     okr = is_this_field(recv, W)
-    ck.ob("C03-O4", sitestr(proc, p), okr, "%s: the event goes to the worker object" % tag if okr else "%s: the event is posted to %s" % (tag, describe(recv)), key="OwnThreadHandler::process|receiver")
+    ck.ob(R("C03-O4"), sitestr(proc, p), okr, "%s: the event goes to the worker object" % tag if okr else "%s: the event is posted to %s" % (tag, describe(recv)), key="OwnThreadHandler::process|receiver")
     ev = skip_copies(deref_local(proc, a[1])) if len(a) > 1 else None
     okev = isinstance(ev, dict) and ev.get("k") == "new" and isinstance(ev.get("init"), dict) and skip_copies(ev["init"]).get("k") == "construct" and arg_is_param(skip_copies(ev["init"]), 0, proc, 0) \
         and "LogEvent" in (ev.get("alloc") or "")
-    ck.ob("C03-O2", sitestr(proc, p), okev, "%s: posts new LogEvent(lmsg) built from the message being logged" % tag if okev else "%s: posts %s" % (tag, describe(ev)), key="OwnThreadHandler::process|event")
+    ck.ob(R("C03-O2"), sitestr(proc, p), okev, "%s: posts new LogEvent(lmsg) built from the message being logged" % tag if okev else "%s: posts %s" % (tag, describe(ev)), key="OwnThreadHandler::process|event")
     if okev:
         ector = F.fns.get(skip_copies(ev["init"]).get("fn"))
         if ector is None:
-            ck.ob("C03-O2", sitestr(proc, p), None, "LogEvent constructor body not found")
+            ck.ob(R("C03-O2"), sitestr(proc, p), None, "LogEvent constructor body not found")
         else:
             ck.touch(ector)
             erec = F.record(ector.cls)
             fld = [f for f in erec["fields"] if f["type"] in (LM, "const " + LM)]
             byval = len(fld) == 1
-            ck.ob("C03-O2", sitestr(ector), byval, "LogEvent holds a LogMessage by value" if byval else "LogEvent holds %s (a reference or pointer would dangle after the call returns)" % [f["type"] for f in erec["fields"]],
+            ck.ob(R("C03-O2"), sitestr(ector), byval, "LogEvent holds a LogMessage by value" if byval else "LogEvent holds %s (a reference or pointer would dangle after the call returns)" % [f["type"] for f in erec["fields"]],
                   key="LogEvent|not-by-value")
             if byval:
                 ii = [i for i in ector.inits if i.get("member", "").endswith("::" + fld[0]["name"])]
@@ -319,21 +320,21 @@ def handoff(ck, proc):
                 if isinstance(e, dict) and e.get("k") == "construct" and e.get("copy") is False and e.get("args"):
                     inner = skip_copies(e["args"][0])
                 ok = bool(ii) and ii[0].get("written") and is_ref_to(inner if inner is not None else {}, ector.params[0]["decl"])
-                ck.ob("C03-O2", sitestr(ector), ok, "the stored message is copy-constructed from the constructor argument" if ok else "the stored message is initialised from %s" % describe(e), key="LogEvent|init")
+                ck.ob(R("C03-O2"), sitestr(ector), ok, "the stored message is copy-constructed from the constructor argument" if ok else "the stored message is initialised from %s" % describe(e), key="LogEvent|init")
     # O4
     pr = a[2] if len(a) > 2 else None
     okpr = pr is None or pr.get("k") == "defaultarg" or const_int(pr) == 0
-    ck.ob("C03-O4", sitestr(proc, p), okpr, "%s: default event priority (FIFO with all other log events)" % tag if okpr else "%s: event priority %s overtakes earlier messages" % (tag, describe(pr)), key="OwnThreadHandler::process|priority")
+    ck.ob(R("C03-O4"), sitestr(proc, p), okpr, "%s: default event priority (FIFO with all other log events)" % tag if okpr else "%s: event priority %s overtakes earlier messages" % (tag, describe(pr)), key="OwnThreadHandler::process|priority")
     held = lf.held_at(p, OT + "::m_mutex")
-    ck.ob("C03-O4", sitestr(proc, p), held, "%s: posted while holding the handler mutex (posting order = lock order)" % tag if held else "%s: posted without the handler mutex held on every path" % tag, key="OwnThreadHandler::process|post-unlocked")
+    ck.ob(R("C03-O4"), sitestr(proc, p), held, "%s: posted while holding the handler mutex (posting order = lock order)" % tag if held else "%s: posted without the handler mutex held on every path" % tag, key="OwnThreadHandler::process|post-unlocked")
     # O5 producer side
     if len(incs) != 1:
-        ck.ob("C03-O5", sitestr(proc), False if not incs else None, "%s: pending count incremented at %d sites" % (tag, len(incs)), key="OwnThreadHandler::process|increment")
+        ck.ob(R("C03-O5"), sitestr(proc), False if not incs else None, "%s: pending count incremented at %d sites" % (tag, len(incs)), key="OwnThreadHandler::process|increment")
     else:
         i = incs[0]
         one = const_int(i["args"][0]) == 1 if i.get("args") else True
         ok = g.dominated(ps, {g.site_of(i)}) and one and g.site_of(i) in live_w and g.site_of(i) not in g.live(g.projector(atom_eq(isw, False)))
-        ck.ob("C03-O5", sitestr(proc, i), ok, "%s: pending += 1 before the post, only on the asynchronous branch" % tag if ok else "%s: increment does not precede the post exactly on the asynchronous branch" % tag, key="OwnThreadHandler::process|increment")
+        ck.ob(R("C03-O5"), sitestr(proc, i), ok, "%s: pending += 1 before the post, only on the asynchronous branch" % tag if ok else "%s: increment does not precede the post exactly on the asynchronous branch" % tag, key="OwnThreadHandler::process|increment")
     # consumer side
     ce = [F.flat(f) for f in F.fns.values() if f.cls and f.cls.startswith(cls + "::Worker") and f.name.endswith("::customEvent")]
     ck.require(len(ce) == 1, "%s: Worker::customEvent not found" % tag)
@@ -354,36 +355,36 @@ def handoff(ck, proc):
             return None
         return atom
     if len(run) != 1:
-        ck.ob("C03-O4", sitestr(ce), False, "%s: customEvent runs the wrapped handler at %d sites" % (tag, len(run)), key="Worker::customEvent|run-count")
+        ck.ob(R("C03-O4"), sitestr(ce), False, "%s: customEvent runs the wrapped handler at %d sites" % (tag, len(run)), key="Worker::customEvent|run-count")
     else:
         r = run[0]
         rs_ = gc.site_of(r)
         keep = gc.projector(ev_atom(True))
         ok = gc.must_pass({rs_}, keep=keep) and not gc.in_cycle(rs_) and rs_ not in gc.live(gc.projector(ev_atom(False)))
-        ck.ob("C03-O4", sitestr(ce, r), ok, "%s: a LogEvent runs the wrapped handler exactly once; other events do not" % tag if ok else "%s: the handler run in customEvent is conditional/repeated" % tag, key="Worker::customEvent|run")
+        ck.ob(R("C03-O4"), sitestr(ce, r), ok, "%s: a LogEvent runs the wrapped handler exactly once; other events do not" % tag if ok else "%s: the handler run in customEvent is conditional/repeated" % tag, key="Worker::customEvent|run")
         m = skip_copies(deref_local(ce, r["args"][0])) if r.get("args") else None
         okm = isinstance(m, dict) and m.get("k") == "member" and is_field(m, OT + "::LogEvent::lmsg") and casts and is_ref_to(unwrap_ptr(m.get("base")), casts[0]["decl"])
-        ck.ob("C03-O4", sitestr(ce, r), bool(okm), "%s: the handler gets the event's own message" % tag if okm else "%s: the handler gets %s" % (tag, describe(m)), key="Worker::customEvent|message")
+        ck.ob(R("C03-O4"), sitestr(ce, r), bool(okm), "%s: the handler gets the event's own message" % tag if okm else "%s: the handler gets %s" % (tag, describe(m)), key="Worker::customEvent|message")
         tgt = F.fns.get(r.get("fn"))
         okt = tgt is not None and not strip_tmpl(tgt.name).startswith(OT + "::")
-        ck.ob("C03-O4", sitestr(ce, r), okt, "%s: the run is the wrapped BaseHandler::process (not the posting wrapper)" % tag if okt else "%s: customEvent calls %s" % (tag, r.get("callee")), key="Worker::customEvent|target")
+        ck.ob(R("C03-O4"), sitestr(ce, r), okt, "%s: the run is the wrapped BaseHandler::process (not the posting wrapper)" % tag if okt else "%s: customEvent calls %s" % (tag, r.get("callee")), key="Worker::customEvent|target")
         if len(dec) != 1:
-            ck.ob("C03-O5", sitestr(ce), False if not dec else None, "%s: pending count decremented at %d sites" % (tag, len(dec)), key="Worker::customEvent|decrement")
+            ck.ob(R("C03-O5"), sitestr(ce), False if not dec else None, "%s: pending count decremented at %d sites" % (tag, len(dec)), key="Worker::customEvent|decrement")
         else:
             ds = gc.site_of(dec[0])
             ok = gc.postdominated(rs_, {ds}) and gc.dominated(ds, {rs_}) and not gc.in_cycle(ds)
-            ck.ob("C03-O5", sitestr(ce, dec[0]), ok, "%s: pending -= 1 exactly once after each handler run" % tag if ok else "%s: the decrement does not follow every handler run exactly once" % tag, key="Worker::customEvent|decrement")
+            ck.ob(R("C03-O5"), sitestr(ce, dec[0]), ok, "%s: pending -= 1 exactly once after each handler run" % tag if ok else "%s: the decrement does not follow every handler run exactly once" % tag, key="Worker::customEvent|decrement")
     from rules.oth import worker_runs_unlocked, worker_cleared_after_stop
-    worker_runs_unlocked(ck, cls, tag, "C03-O3")
+    worker_runs_unlocked(ck, cls, tag, R("C03-O3"))
     from rules.oth import creation_is_atomic
-    creation_is_atomic(ck, cls, tag, "C03-O6")
-    worker_cleared_after_stop(ck, cls, tag, "C03-O4")
+    creation_is_atomic(ck, cls, tag, R("C03-O6"))
+    worker_cleared_after_stop(ck, cls, tag, R("C03-O4"))
     # single event type, no sendEvent
     members = F.units_of(lambda f: bool(f.cls) and f.cls.startswith(cls))
     for f in members:
         if True:
             for n in f.calls(("QCoreApplication::sendEvent", "QCoreApplication::sendPostedEvents", "QCoreApplication::processEvents")):
-                ck.ob("C03-O4", sitestr(f, n), False, "%s bypasses the posted-event queue" % describe(n)[:60], key="OwnThreadHandler|%s" % n.get("callee").split("::")[-1])
+                ck.ob(R("C03-O4"), sitestr(f, n), False, "%s bypasses the posted-event queue" % describe(n)[:60], key="OwnThreadHandler|%s" % n.get("callee").split("::")[-1])
     # writers of m_pendingCount inside this instantiation
     inc_pos = {(x.get("l"), x.get("c")) for x in incs} | {(x.get("l"), x.get("c")) for x in dec}
     for f in members:
@@ -392,7 +393,7 @@ def handoff(ck, proc):
                 if (n.get("l"), n.get("c")) in inc_pos:
                     continue
                 if n.get("ck") == "member" and is_field(n.get("obj"), OT + "::m_pendingCount") and n.get("constm") is False and n not in incs and n not in dec:
-                    ck.ob("C03-O5", sitestr(f, n), False, "pending count also modified by %s" % describe(n), key="m_pendingCount|writer|%s" % strip_tmpl(f.name).split("::")[-1])
+                    ck.ob(R("C03-O5"), sitestr(f, n), False, "pending count also modified by %s" % describe(n), key="m_pendingCount|writer|%s" % strip_tmpl(f.name).split("::")[-1])
     # O6
     mv = [F.flat(f) for f in F.fn_all(OT + "::moveToOwnThread") if f.cls == cls]
     ck.require(len(mv) == 1, "%s: moveToOwnThread not found" % tag)
@@ -402,7 +403,7 @@ def handoff(ck, proc):
     mtt = [n for n in mv.calls("QObject::moveToThread") if is_this_field(unwrap_ptr(n.get("obj")), W)]
     st = [n for n in mv.calls("QThread::start")]
     ok = len(mtt) == 1 and len(st) == 1 and gm.dominated(gm.site_of(st[0]), {gm.site_of(mtt[0])})
-    ck.ob("C03-O6", sitestr(mv), ok, "%s: the worker is moved to the thread before the thread starts" % tag if ok else "%s: worker moved %d times / thread started %d times, or in the wrong order" % (tag, len(mtt), len(st)), key="moveToOwnThread|move-before-start")
+    ck.ob(R("C03-O6"), sitestr(mv), ok, "%s: the worker is moved to the thread before the thread starts" % tag if ok else "%s: worker moved %d times / thread started %d times, or in the wrong order" % (tag, len(mtt), len(st)), key="moveToOwnThread|move-before-start")
     if mtt:
         tgt = skip_copies(mtt[0]["args"][0])
         okt = any(is_this_field(x, OT + "::m_thread") for x in walk(tgt))
@@ -425,22 +426,22 @@ def handoff(ck, proc):
                           for a_ in mv.find(lambda n: (n.get("k") == "binop" and n.get("op") == "=") or (n.get("k") == "call" and n.get("op") == "=")))
         elif not okt and isinstance(t0, dict):
             okt = any(is_this_field(x, OT + "::m_thread") for x in walk(t0))
-        ck.ob("C03-O6", sitestr(mv, mtt[0]), okt, "%s: the worker lives on the logger's own thread" % tag if okt else "%s: the worker is moved to %s" % (tag, describe(tgt)), key="moveToOwnThread|thread")
+        ck.ob(R("C03-O6"), sitestr(mv, mtt[0]), okt, "%s: the worker lives on the logger's own thread" % tag if okt else "%s: the worker is moved to %s" % (tag, describe(tgt)), key="moveToOwnThread|thread")
     wc = [f for f in F.fns.values() if f.cls and f.cls.startswith(cls + "::Worker") and f.d.get("kind") == "ctor" and not f.d.get("copyctor") and not f.d.get("movector")]
     if wc:
         bi = [i for i in wc[0].inits if i.get("base") == "QObject"]
         e = skip_copies(bi[0]["e"]) if bi else None
         noparent = e is None or (e.get("k") == "construct" and (not e.get("args") or all(x.get("k") == "defaultarg" or skip_copies(x).get("k") == "null_lit" for x in e["args"])))
-        ck.ob("C03-O6", sitestr(wc[0]), noparent, "%s: the worker has no parent (a parented object cannot be moved to another thread)" % tag if noparent else "%s: the worker is constructed with a parent" % tag, key="Worker|parent")
+        ck.ob(R("C03-O6"), sitestr(wc[0]), noparent, "%s: the worker has no parent (a parented object cannot be moved to another thread)" % tag if noparent else "%s: the worker is constructed with a parent" % tag, key="Worker|parent")
 
 
-def only_stop_paths_stop(ck):
+def only_stop_paths_stop(ck, rid="C03-O11", why=None):
     """C03-O11: a running asynchronous handler is switched back to synchronous processing only by the three stop paths the property knows (the
     destructor, the application-quit hook, the user's own resetOwnThread() call). Library code that stops and restarts the logger thread for a
     purpose of its own (a flush, a reconfiguration) opens a window in which log calls of other threads run the whole pipeline - sinks included -
     in the calling thread."""
     F = ck.facts
-    ck.rule("C03-O11", "inside the library resetOwnThread() is called only from the destructor of OwnThreadHandler and from the aboutToQuit hook installed by moveToOwnThread()")
+    ck.rule(rid, "inside the library resetOwnThread() is called only from the destructor of OwnThreadHandler and from the aboutToQuit hook installed by moveToOwnThread()")
     calls = F.callers_of(lambda n: n.get("k") == "call" and strip_tmpl(n.get("callee") or "").endswith("OwnThreadHandler::resetOwnThread"))
     n_ok = 0
     seen = set()
@@ -471,7 +472,7 @@ def only_stop_paths_stop(ck):
         if key in seen:
             continue
         seen.add(key)
-        ck.ob("C03-O11", sitestr(f, n), False, "%s stops the logger thread for a purpose of its own: until it is started again every log call of another thread finds the handler synchronous and runs the "
+        ck.ob(rid, sitestr(f, n), False, "%s stops the logger thread for a purpose of its own: until it is started again every log call of another thread finds the handler synchronous and runs the "
               "pipeline, sinks included, inside the logging call" % short, key="stop-path|%s" % short)
     ck.require(n_ok >= 2, "the two sanctioned stop paths (destructor, aboutToQuit hook) were not both found (%d)" % n_ok)
-    ck.ob("C03-O11", "src/qtlogger/ownthreadhandler.h (OwnThreadHandler)", True, "%d call sites of resetOwnThread() in the library, all in the destructor or in the functor connected to QCoreApplication::aboutToQuit" % n_ok, key="stop-path|sanctioned")
+    ck.ob(rid, "src/qtlogger/ownthreadhandler.h (OwnThreadHandler)", True, "%d call sites of resetOwnThread() in the library, all in the destructor or in the functor connected to QCoreApplication::aboutToQuit" % n_ok, key="stop-path|sanctioned")
